@@ -2,7 +2,7 @@
 //
 //	Pub/Sub decorators are transparent; delay stamps and metrics count exactly.
 //
-// Four workload classes run the real decorators (message transform, delay.Publisher, Prometheus
+// Five workload classes run the real decorators (message transform, delay.Publisher, Prometheus
 // metrics decorators and middleware) around scripted ends and judge every execution against a
 // reference model:
 //
@@ -11,6 +11,8 @@
 //	router    a Router with the metrics decorators/middleware and scripted handler outcomes
 //	subclose  subscriber stacks on the error paths: failing inner Close / Subscribe, messages held in the decorators,
 //	          repeated and concurrent Close, Subscribe during/after Close, compared with the bare subscriber (subclose.go)
+//	pubretry  publisher stacks with a delay.Publisher whose Publish fails (transiently failing default generator, no delay
+//	          available, failing inner publisher) and is retried by the caller with the SAME message objects (pubretry.go)
 package c20
 
 import (
@@ -31,25 +33,36 @@ func init() {
 	vlib.Register(&vlib.Prop{
 		ID:    "C20",
 		Level: "exploration",
-		Cases: func(tier string) int { return vlib.TierN(tier, 625, 125000) },
-		Rule: "case idx%10 in 0..3: publisher stack (depth 0..3 drawn from transform / delay.Publisher / metrics decorator of one builder, the metrics decorator " +
+		Cases: func(tier string) int { return vlib.TierN(tier, 750, 150000) },
+		Rule: "case idx%12 in 0..3: publisher stack (depth 0..3 drawn from transform / delay.Publisher / metrics decorator of one builder, the metrics decorator " +
 			"possibly twice) around a scripted publisher; 3..8 Publish calls with fresh batches of 0..4 messages mixing pre-set delay metadata (delay.Message), " +
 			"context delays (For/Until: -1h, 0, +10y, small) and none, PublisherConfig {generator absent/present/failing} x AllowNoDelay, scripted inner errors; " +
-			"idx%10 in 4..5: subscriber stack (depth 0..3 of transform / metrics, also twice) around a scripted subscriber, 1..2 subscriptions, messages acked, nacked or " +
-			"held back (two-phase metric comparison), Subscribe/Close errors; idx%10 in 6..7: Router with metrics decorators (once / twice) and middleware, Recoverer absent / outside / inside, " +
+			"idx%12 in 4..5: subscriber stack (depth 0..3 of transform / metrics, also twice) around a scripted subscriber, 1..2 subscriptions, messages acked, nacked or " +
+			"held back (two-phase metric comparison), Subscribe/Close errors; idx%12 in 6..7: Router with metrics decorators (once / twice) and middleware, Recoverer absent / outside / inside, " +
 			"handler outcome sequences over {success, error, panic, publish failure} with broker-like redelivery; " +
-			"idx%10 in 8..9 (subclose, error paths of the subscriber decorators): the same kind of stack (depth 0 = the bare subscriber, the reference) around a scripted subscriber whose Close reports an error " +
+			"idx%12 in 8..9 (subclose, error paths of the subscriber decorators): the same kind of stack (depth 0 = the bare subscriber, the reference) around a scripted subscriber whose Close reports an error " +
 			"never / on the first call only / on every call (its subscriptions end in every Close call) and whose Subscribe fails for chosen topics; script: 1..3 Subscribe calls, 0..4 emissions per subscription of which the consumer " +
 			"reads a prefix (the rest is held inside the decorators, nobody reading; 70%: Close is called only once the process is quiescent, else while messages are in flight), optional ctx cancel of a subscription, 1..3 Close calls " +
 			"sequential or concurrent, optionally a Subscribe racing them and the consumer resuming to read during Close, optional Subscribe after Close, then the consumer drains every channel. Judged on what the inner subscriber " +
 			"did (holds trivially at depth 0): every Subscribe/Close reaches it once and returns its error (sequence for sequential, multiset for concurrent Close calls), every Close and Subscribe call returns (quiescence), " +
 			"every channel handed out ends once the inner subscriptions ended, every message taken from the inner subscriber is either received (once, in order, transformed once, settling reaches the inner message) or nacked, " +
-			"no message comes out by a receive started after a Close call had returned (logical stamps), subscriber metric = consumer's settlements (+ at most the messages the decorators gave back). Every case compares the scripted ends' records and a private " +
+			"no message comes out by a receive started after a Close call had returned (logical stamps), subscriber metric = consumer's settlements (+ at most the messages the decorators gave back); " +
+			"idx%12 in 10..11 (pubretry, failed Publish + retry with the same message objects): publisher stack of depth 1..3 over transform / delay.Publisher / metrics with at least one delay.Publisher " +
+			"(generator absent / never failing / transiently failing: per message it fails on its first 0..3 consultations and then succeeds, returning a different delay on every consultation and, on failure, " +
+			"either Delay{} or a non-zero decoy Delay together with the error; AllowNoDelay on/off) around a scripted publisher that fails on the first 0..3 calls per topic; 1..3 batches of 1..4 messages " +
+			"(40% single) mixing pre-set delay metadata / context delay / none; every batch is published up to 4 times with the SAME message objects until a Publish returns nil, optionally the caller puts a context delay on a still " +
+			"unstamped message before a retry. Judged per attempt from the messages' metadata before the call, the generators' own consultation log of that attempt, the forwarded snapshots and the metadata after the call: " +
+			"a forwarded attempt carries for every message exactly the delay chosen by precedence on the state the caller handed in (stamp already present: unchanged; else context; else the outermost generator's result of THIS attempt, " +
+			"which therefore has to be consulted again on a retry), whole batch in one call, inner error passed through; an attempt that does not reach the inner publisher needs a reason (a generator failure or no delay available) and an error; " +
+			"after ANY failed attempt every message's delay keys are either what they were before the call or a delay that a source chose in that attempt (context delay or a generator result returned without error) - never a stamp nobody chose " +
+			"(clause failed-publish-stamp) - and its other metadata is what it was plus the trail of the transforms that ran (failed-publish-metadata). Every case compares the scripted ends' records and a private " +
 			"prometheus.Registry's Gather() with the reference model. Non-trivial = at least one decorator in the stack and at least one message passed or was refused " +
-			"(subclose: at least one decorator and an inner Close/Subscribe error, or a message held in / given back by the decorators); " +
+			"(subclose: at least one decorator and an inner Close/Subscribe error, or a message held in / given back by the decorators; pubretry: at least one failed Publish was retried with the same messages); " +
 			"distinct = distinct (class, stack, per-call shape and outcome) signatures.",
 		Assumptions: []string{
-			"a message is published once (fresh messages per Publish call, per the Message godoc)",
+			"a message is published once (fresh messages per Publish call, per the Message godoc); pubretry class: a message whose Publish returned an error is published again (same object) until a Publish returns nil, never after that",
+			"pubretry class: which messages of a failed batch keep a legitimately resolved stamp is not decided by the statement (delay.Publisher keeps the stamps of the messages it had resolved before the failure, and all of them when the inner publisher fails): unchanged and stamped-by-the-chosen-source are both accepted, a retry then falls under 'metadata already present'",
+			"pubretry class: the metrics publisher decorator leaves its 'observed' mark in the message context, so a re-published message object is not observed again; the publish metric of retry attempts is therefore judged as 0 or 1 observation with the right label (C20_METRICS_RETRY=1 demands exactly one: clause metrics-publish-count-retry)",
 			"substack class: received messages are consumed from the outermost channel before Close; the subclose class drops this (messages stay unread in the decorators when Close is called)",
 			"subclose class: the inner subscriber honours the Subscriber godoc ('Close closes all subscriptions with their output channels') in every Close call, also in those that report an error; a Subscribe on a closed stack may be refused by the decorator itself ('subscriber closed') - only an error of the inner Subscribe has to come through",
 			"subclose class: a message that the decorators give back themselves (nack, never delivered) may or may not be counted by the subscriber metric (the statement counts received messages)",
@@ -62,15 +75,17 @@ func init() {
 }
 
 func run(e *vlib.Env) vlib.Result {
-	switch e.Idx % 10 {
+	switch e.Idx % 12 {
 	case 0, 1, 2, 3:
 		return runPubStack(e)
 	case 4, 5:
 		return runSubStack(e)
 	case 6, 7:
 		return runRouter(e)
-	default:
+	case 8, 9:
 		return runSubClose(e)
+	default:
+		return runPubRetry(e)
 	}
 }
 
@@ -167,6 +182,13 @@ func (l *transformLog) count(tag, uuid string) int {
 	l.mu.Lock()
 	defer l.mu.Unlock()
 	return l.cnt[tag+"/"+uuid]
+}
+
+// since returns the invocations recorded after the first n ("tag/uuid", in order).
+func (l *transformLog) since(n int) []string {
+	l.mu.Lock()
+	defer l.mu.Unlock()
+	return append([]string(nil), l.ev[n:]...)
 }
 
 func (l *transformLog) total() int {
